@@ -144,3 +144,9 @@ package xpair1
 //@   before select#1 assert selwaits(s.sizeQ) && selsends(s.sendQ)
 //@
 // ---- end generated current-queue contracts ----
+// ---- generated AddPipe contracts (tools/gen_addpipe_contracts.py) ----
+//@ func (*socket).AddPipe
+//@   ghost wasClosed = s.closed at call:Lock#1
+//@   ensures wasClosed ==> result == protocol.ErrClosed && !spawned("receiver") && !spawned("sender")
+//@
+// ---- end generated AddPipe contracts ----
